@@ -136,7 +136,13 @@ def main():
             sd = os.path.join(VERIF, "seeded")
             for tag in sorted(os.listdir(sd)) if os.path.isdir(sd) else []:
                 mp = os.path.join(sd, tag, "meta.json")
-                if os.path.exists(mp) and json.load(open(mp)).get("property") == pid:
+                if not os.path.exists(mp):
+                    continue
+                meta = json.load(open(mp))
+                caught = [k for k in (meta.get("caught_by_checks") or {}) if re.match(r"C\d\d$", k)]
+                # a seed belongs to the suite of every check that reports it (seed_matrix.py records that); a seed nobody reports yet
+                # stays with its own property, where it shows up as MISSED
+                if pid in caught or (not caught and meta.get("property") == pid):
                     extra.append(dict(name="seed:%s" % tag, kind="break", patch=os.path.join(sd, tag, "patch.diff")))
             bd = os.path.join(VERIF, "benign")
             for tag in sorted(os.listdir(bd)) if os.path.isdir(bd) else []:
